@@ -11,6 +11,7 @@ import Driver.Lib
 import NoKVModel.Wal.Crc
 import NoKVModel.Wal.Record
 import NoKVModel.Wal.Manager
+import NoKVModel.Wal.Buffered
 import NoKVModel.Wal.Entry
 import NoKVModel.Wal.Flip
 
@@ -30,7 +31,7 @@ structure St where
   c : WalCfg := WalCfg.good
   ec : EntCfg := EntCfg.good
   segs : List Seg := []
-  mgr : Option Nat := none
+  mgr : Option BMgr := none        -- the open manager (buffer made explicit); `segs` = files on disk
   ghost : List GRec := []          -- oldest first
   flips : List Nat := []           -- currently flipped bit positions of the newest segment
   needVerify : Bool := false       -- a cut tore a record and VerifyDir has not run since
@@ -97,14 +98,31 @@ def headId (segs : List Seg) : Nat :=
   | [] => 0
   | s :: _ => s.id
 
-/-- one append on the model + ghost; returns the EntryInfo string -/
-def doAppend (st : St) (segSize : Nat) (r : Rec) : St × String :=
-  let segs' := appendRec crc32c segSize st.segs r
-  let id := headId segs'
-  let endOff := headSize segs'
-  let off := endOff - encLen r
-  ({ st with segs := segs', ghost := st.ghost ++ [⟨id, endOff, r⟩], loose := st.loose || st.needVerify },
+/-- one iteration of the AppendRecords loop on the model + ghost; returns the EntryInfo string.
+A capacity rotation truncates the target id: records the ghost held for that id are gone. -/
+def doAppend (st : St) (b : BSt) (r : Rec) : St × BSt × String :=
+  let b1 := bensure b r
+  let id := b1.mgr.activeId
+  let off := b1.mgr.activeSize
+  let b2 := bappendRec crc32c b r
+  let ghost0 := if id = b.mgr.activeId then st.ghost else st.ghost.filter (fun g => g.seg ≠ id)
+  ({ st with ghost := ghost0 ++ [⟨id, off + encLen r, r⟩], loose := st.loose || st.needVerify }, b2,
    s!"{id}:{off}:{r.payload.length + 1}:{r.typ}")
+
+/-- one AppendRecords call -/
+def doBatch (st : St) (m : BMgr) (rs : List Rec) : St × String :=
+  let b0 : BSt := ⟨st.segs, m⟩
+  let (st', b', outs) := rs.foldl (fun (acc : St × BSt × List String) r =>
+    let (s1, b1, o) := doAppend acc.1 acc.2.1 r; (s1, b1, acc.2.2 ++ [o])) (st, b0, [])
+  let b'' := if b'.mgr.syncOnWrite then bflush b' else b'
+  ({ st' with segs := b''.dir, mgr := some b''.mgr }, ",".intercalate outs)
+
+/-- stable sort of the ghost log by segment id (replay order) -/
+def insertBySeg (g : GRec) : List GRec → List GRec
+  | [] => [g]
+  | x :: xs => if g.seg ≤ x.seg then g :: x :: xs else x :: insertBySeg g xs
+
+def sortBySeg (l : List GRec) : List GRec := l.foldr insertBySeg []
 
 def infoStrs (l : List (Nat × Rec)) : List String :=
   let rec go (cur off : Nat) : List (Nat × Rec) → List String
@@ -140,40 +158,58 @@ def step (st : St) (toks : List String) : St × String :=
   -- ------------------------------------------------------------ WAL manager
   | ["w.open", sz] =>
     match natOf? sz, st.mgr with
-    | some sz, none => ({ st with segs := openSegs st.segs, mgr := some (effSegSize sz) }, "ok\tok")
+    | some sz, none => let b := bopen sz false st.segs; ({ st with segs := b.dir, mgr := some b.mgr }, "ok\tok")
+    | _, _ => (st, "bad-op")
+  | ["w.open", sz, sow] =>
+    match natOf? sz, st.mgr with
+    | some sz, none => let b := bopen sz (sow == "1") st.segs; ({ st with segs := b.dir, mgr := some b.mgr }, "ok\tok")
     | _, _ => (st, "bad-op")
   | ["w.close"] =>
     match st.mgr with
-    | some _ => ({ st with mgr := none }, "ok\tok")
+    | some m => let b := bflush ⟨st.segs, m⟩; ({ st with segs := b.dir, mgr := none }, "ok\tok")
+    | none => (st, "bad-op")
+  | ["w.sync"] =>
+    match st.mgr with
+    | some m => let b := bflush ⟨st.segs, m⟩; ({ st with segs := b.dir, mgr := some b.mgr }, "ok\tok")
     | none => (st, "bad-op")
   | ["w.app", t, h] =>
     match natOf? t, bytesOf? h, st.mgr with
-    | some t, some p, some sz => let (st', s) := doAppend st sz ⟨t, p⟩; (st', s ++ "\t*")
+    | some t, some p, some m => let (st', s) := doBatch st m [⟨t, p⟩]; (st', s ++ "\t*")
     | _, _, _ => (st, "bad-op")
   | ["w.appg", t, len, seed] =>
     match natOf? t, natOf? len, natOf? seed, st.mgr with
-    | some t, some len, some seed, some sz =>
-      let (st', s) := doAppend st sz ⟨t, genPayload len seed⟩; (st', s ++ "\t*")
+    | some t, some len, some seed, some m =>
+      let (st', s) := doBatch st m [⟨t, genPayload len seed⟩]; (st', s ++ "\t*")
     | _, _, _, _ => (st, "bad-op")
   | ["w.batch", spec] =>
     match st.mgr with
-    | some sz =>
+    | some m =>
       let items := spec.splitOn ","
       let parsed := items.mapM fun it =>
         match it.splitOn ":" with
         | [t, len, seed] => do let t ← natOf? t; let len ← natOf? len; let seed ← natOf? seed; pure (⟨t, genPayload len seed⟩ : Rec)
         | _ => none
       match parsed with
-      | some rs =>
-        let (st', outs) := rs.foldl (fun (acc : St × List String) r =>
-          let (s', o) := doAppend acc.1 sz r; (s', acc.2 ++ [o])) (st, [])
-        (st', join outs ++ "\t*")
+      | some rs => let (st', s) := doBatch st m rs; (st', s ++ "\t*")
       | none => (st, "bad-op")
     | none => (st, "bad-op")
   | ["w.rotate"] =>
     match st.mgr with
-    | some _ => ({ st with segs := rotate st.segs }, "ok\tok")
+    | some m =>
+      let b := bswitch ⟨st.segs, m⟩ (m.activeId + 1) true
+      ({ st with segs := b.dir, mgr := some b.mgr, ghost := st.ghost.filter (fun g => g.seg ≠ m.activeId + 1) }, "ok\tok")
     | none => (st, "bad-op")
+  | ["w.switch", id, tr] =>
+    match natOf? id, st.mgr with
+    | some id, some m =>
+      let trunc := tr == "1"
+      let b := bswitch ⟨st.segs, m⟩ id trunc
+      ({ st with segs := b.dir, mgr := some b.mgr,
+                 ghost := if trunc then st.ghost.filter (fun g => g.seg ≠ id) else st.ghost }, "ok\tok")
+    | _, _ => (st, "bad-op")
+  | ["w.disk"] =>
+    -- file sizes as they are, WITHOUT flushing (what a crash of the process would leave)
+    (st, join (st.segs.reverse.map (fun s => s!"{s.id}:{s.data.length}")) ++ "\t*")
   | ["w.cut", n] =>
     match natOf? n, st.mgr with
     | some n, none =>
@@ -208,19 +244,27 @@ def step (st : St) (toks : List String) : St × String :=
        statusStr r.2 ++ "\t" ++ (if st.flips.isEmpty && !st.loose then "ok" else "*"))
     | some _ => (st, "bad-op")
   | ["w.segs"] =>
+    -- the harness calls Manager.Sync first when the manager is open
+    let st := match st.mgr with
+      | some m => let b := bflush ⟨st.segs, m⟩; { st with segs := b.dir, mgr := some b.mgr }
+      | none => st
     (st, join (st.segs.reverse.map (fun s => s!"{s.id}:{s.data.length}")) ++ "\t*")
   | ["w.replay"] =>
     match st.mgr with
-    | some _ =>
+    | some mg =>
+      let b := bflush ⟨st.segs, mg⟩      -- the harness calls Manager.Sync before Replay
+      let st := { st with segs := b.dir, mgr := some b.mgr }
       let r := replaySegs st.c crc32c st.segs
       let m := join (r.1.map recStr) ++ ";" ++ statusStr r.2
-      let g := st.ghost.map (fun g => recStr g.r)
+      let g := (sortBySeg st.ghost).map (fun g => recStr g.r)
       let spec := if st.loose then "*" else if st.flips.isEmpty then join g ++ ";ok" else prefixAlts g
       (st, m ++ "\t" ++ spec)
     | none => (st, "bad-op")
   | ["w.replayinfo"] =>
     match st.mgr with
-    | some _ =>
+    | some mg =>
+      let b := bflush ⟨st.segs, mg⟩
+      let st := { st with segs := b.dir, mgr := some b.mgr }
       let r := replaySegsInfo st.c crc32c st.segs
       (st, join (infoStrs r.1) ++ ";" ++ statusStr r.2 ++ "\t*")
     | none => (st, "bad-op")
